@@ -2,6 +2,8 @@ package main
 
 import (
 	"fmt"
+	"go/ast"
+	"go/token"
 	"regexp"
 	"strconv"
 	"strings"
@@ -205,6 +207,31 @@ func checkC06(c *Check) {
 				continue
 			}
 			c.Ob("json-struct/unknown-key-rejected", name, defOK, pos, "the key switch has a default arm that returns an error")
+			// a value whose shape depends on a sibling field (a nat argument taken from the receiver) is parsed only after
+			// the key loop, when that sibling has its final value — JSON keys may come in any order
+			if loop != nil {
+				early := token.NoPos
+				walkBlock(loop.Body, nil, func(m Node, _ []Guard) {
+					cn, ok := m.(*CallN)
+					if !ok || cn.Fn == nil || g.funcs[cn.Fn] == nil {
+						return
+					}
+					for _, e := range cn.ArgExprs {
+						if t := rd.Pkg.TypesInfo.TypeOf(e); t != nil && isUint32(t) {
+							if sel, ok := ast.Unparen(e).(*ast.SelectorExpr); ok {
+								if id, ok := sel.X.(*ast.Ident); ok && ir.Recv != nil && rd.Pkg.TypesInfo.Uses[id] == ir.Recv && early == token.NoPos {
+									early = cn.Pos
+								}
+							}
+						}
+					}
+				})
+				at := pos
+				if early != token.NoPos {
+					at = posStr(g.co.Fset, early)
+				}
+				c.Ob("json-struct/sibling-dependent-value-parsed-after-keys", name, early == token.NoPos, at, "inside the key loop no nested reader is given a nat argument read from a sibling field (such values are kept raw and parsed after the loop)")
+			}
 			post := Block{}
 			// statements after the loop's enclosing `if in != nil`
 			for i, n := range ir.Body {
@@ -343,6 +370,7 @@ func checkC06(c *Check) {
 		}
 	})
 	c.Floor("json-struct/unknown-key-rejected", 50)
+	c.Floor("json-struct/sibling-dependent-value-parsed-after-keys", 50)
 	c.Floor("json-struct/duplicate-key-rejected", 150)
 	c.Floor("json-struct/omitted-field-becomes-empty", 120)
 	c.Floor("json-struct/mask-bit-implied-by-field", 10)
